@@ -313,7 +313,15 @@ def classify(canon, model):
 def explore(ctx, drv, model, cases, search=False):
     if drv is None or model is None:
         return
-    impl = ctx.run_lines(drv, cases, timeout=1800)
+    big = len(cases) > 4000
+    impl = ctx.run_lines(drv, cases, timeout=5400 if big else 1800, shards=16 if big else 8)
+    # a shard that ran into the time limit (heavily loaded machine) leaves empty / "[timeout]" /
+    # NOOUTPUT lines: run those cases again before judging them
+    redo = [k for k, l in enumerate(impl) if l in ("", "[timeout]") or l.startswith("NOOUTPUT")]
+    if redo and len(redo) < len(cases):
+        again = ctx.run_lines(drv, [cases[k] for k in redo], timeout=5400, shards=16)
+        for k, l in zip(redo, again):
+            impl[k] = l
     mcases = []
     canon = []
     oracle = []
@@ -327,7 +335,7 @@ def explore(ctx, drv, model, cases, search=False):
         else:
             canon.append(body)
             mcases.append(c)
-    mod = ctx.run_lines(model, mcases, timeout=1800)
+    mod = ctx.run_lines(model, mcases, timeout=5400 if big else 1800, shards=16 if big else 8)
     ctx.cov["evaluations"] += len(cases)
     ctx.cov["distinct_nontrivial"] += len(set(c for c, r in zip(cases, canon) if nontrivial(c, r)))
     ctx.cov["traces_validated_against_impl"] += sum(1 for m in mod if not m.startswith("SCOPE") and m != "UNSUPPORTED")
@@ -361,7 +369,7 @@ def run(ctx):
     ctx.prove(PROOF_MODULES, OBLIGATIONS)
     drv = ctx.build_driver("c31_driver")
     model = ctx.build_model("C31", "C31/Extract.v", "c31_main.ml", "semodel", extra_ml=["expr_io.ml"])
-    na, nb = (700, 400) if ctx.tier == "quick" else (10000, 5000)
+    na, nb = (700, 400) if ctx.tier == "quick" else (8000, 4000)
     cases = list(CORPUS) + [gen_a(ctx.rng, ctx.tier) for _ in range(na)] + [gen_b(ctx.rng, ctx.tier) for _ in range(nb)]
     explore(ctx, drv, model, cases)
     if ctx.broken and not [v for v in ctx.violations if v["key"] not in vlib.load_known("C31")]:
